@@ -130,6 +130,7 @@ def build(unit):
                     where = f"{d['file']}:{extract.line_of(src, s)}-{extract.line_of(src, e)} slice of {d['fn']}"
                     body = extract.transform(body, exlog["rules_applied"], where)
                     body = extract.drop_statements(body, drops, exlog["dropped"], where)
+                    body = annotate_loops(body, loops, exlog)
                     text = sig + "\n" + "\n".join(clauses) + ("\n" if clauses else "") + "{\n" + "\n".join(pre) + ("\n" if pre else "") + body.rstrip() + "\n" + "\n".join(post) + ("\n" if post else "") + "}\n"
                     if wrap:
                         text = wrap + " {\n" + text + "}\n"
